@@ -23,5 +23,9 @@ REGISTRY = {
                     "(functions, methods, attributes, classes; visible and skipped) under every raise order; the 5.5k triples are emitted, concretised into one package, run, and C20_Trace judges the marker "
                     "set in front of each of 15k emitted declarations (scenario-side kinds from the scenario, shown kinds from the parsed declaration).",
             "ref": "DESIGN.md section 7 C20", "note": BASE_NOTE + " TODO lines are mapped to marker kinds by keyword, not by exact wording.", "technique": TECH},
+    "C09": {"text": "spec/Ident.tla specifies the camel-case conversion twice (declaratively and as a character scanner) and TLC checks they agree for every identifier over {a,b,A,1,_} up to "
+                    "length 4 (6 thorough) plus all keyword spellings; every identifier is replayed through the real conversion function (one implementation call per spec behaviour) and through the CLI in "
+                    "six declaration positions and module path segments with -nc off and on; C09_Trace judges rendering, annotation-iff-differs, recoverability and the name-free skeleton.",
+            "ref": "DESIGN.md section 7 C09", "note": BASE_NOTE + " Result names are judged for rendering only (a result has no Python name to recover).", "technique": TECH},
 }
 NOT_APPLICABLE = {}
